@@ -329,7 +329,9 @@ func (e *Env) Finish(out kernel.Outcome) {
 		e.Res.Inconclusive = "step budget exhausted (zero-time livelock, or a run too expensive to finish)\n" + out.HangDump
 	}
 	if out.Anon > 0 {
-		e.Res.HarnessError = fmt.Sprintf("%d goroutine(s) reached a hook without a role", out.Anon)
+		// library goroutines without a role of their own (named after their function by the
+		// controller): counted, not refused
+		e.Fault("goroutine-without-a-role", out.Anon)
 	}
 }
 
